@@ -112,6 +112,60 @@ func TestVerifC12Crypto(t *testing.T) {
 				}
 			}
 		}
+		// forgery with degenerate group elements: the holder attaches a range proof whose C_i are 0, 1,
+		// N-1 or N for a FALSE statement and computes the challenge the way the verifier will
+		{
+			N := pk.N
+			for _, nsq := range []int{3, 4} {
+				for cname, cv := range map[string]*big.Int{"0": vfInt(0), "1": vfInt(1), "N-1": new(big.Int).Sub(N, vfInt(1)), "N": new(big.Int).Set(N)} {
+					for _, resp := range []int64{0, 1, 999} {
+						for _, sign := range []int{1, -1} {
+							if _, mine := r.Next(); !mine {
+								continue
+							}
+							r.Eval()
+							desc := fmt.Sprintf("forged range proof: %d squares, all C_i=%s, responses=%d, sign=%d, statement false", nsq, cname, resp, sign)
+							r.Nontrivial(keyName + "|" + desc)
+							b, err := credA.CreateDisclosureProofBuilder([]int{2}, nil, false)
+							if err != nil {
+								r.HarnessError("builder: %v", err)
+								return
+							}
+							// a1 = 50: claim a1 >= 10^6 (sign 1) or a1 <= 3 (sign -1)
+							a, kk := uint(1), vfInt(1000000)
+							if sign == -1 {
+								kk = vfInt(3)
+							}
+							if nsq == 3 {
+								a = 4
+								kk = new(big.Int).Sub(new(big.Int).Mul(kk, vfInt(4)), vfInt(2))
+							}
+							forged := vfForge(b, pk, func(p *ProofD) {
+								rp := &rangeproof.Proof{Ld: 8, Sign: sign, A: a, K: kk, V5Response: vfInt(resp)}
+								for i := 0; i < nsq; i++ {
+									rp.Cs = append(rp.Cs, vfCopy(cv))
+									rp.DResponses = append(rp.DResponses, vfInt(resp))
+									rp.VResponses = append(rp.VResponses, vfInt(resp))
+								}
+								p.RangeProofs = map[int][]*rangeproof.Proof{1: {rp}}
+							}, false)
+							if forged == nil {
+								r.Outcome("forgery:no-fixed-point")
+								continue
+							}
+							acc, _ := c12Verify(pk, forged)
+							r.Outcome(fmt.Sprintf("forgery:fixed-point:accepted=%v", acc))
+							if acc {
+								q := &ProofD{}
+								vfJSONCopy(forged, q)
+								q.Verify(pk, vfContext, vfNonce, false)
+								c12Judge(r, attrs, q, "forged-degenerate-commitments", map[string]any{"key": keyName, "forgery": desc})
+							}
+						}
+					}
+				}
+			}
+		}
 		foreign, err := credB.CreateDisclosureProof([]int{4}, map[int][]*rangeproof.Statement{1: {c12Stmt(1, 1, 4000, nil)}}, false, vfContext, vfNonce)
 		if err != nil {
 			r.HarnessError("foreign proof: %v", err)
